@@ -126,7 +126,7 @@ func TestVerifHTTP(t *testing.T) {
 	client := &nethttp.Client{Timeout: 5 * time.Second,
 		CheckRedirect: func(*nethttp.Request, []*nethttp.Request) error { return nethttp.ErrUseLastResponse }}
 
-	srcLists := [][]string{nil, {"good", "oth/er"}}
+	srcLists := [][]string{nil, {"good", "oth/er"}, {"site.alpha", "b1/c2", "good"}}
 	keyLists := [][]string{nil, {"k1", "k2"}}
 
 	run := func(c vhCase) {
@@ -137,14 +137,31 @@ func TestVerifHTTP(t *testing.T) {
 		var req *nethttp.Request
 		exists := 0
 		switch c.route {
-		case "data", "recovery":
-			meta, _ := json.Marshal([]map[string]interface{}{{
-				"n": c.name, "r": c.renamed, "p": c.prev, "f": fmt.Sprintf("%x", md5.Sum(content)),
-				"t": "1700000000+0", "s": len(content), "b": 0, "e": len(content)}})
+		case "data", "recovery", "data2", "data3":
+			h := fmt.Sprintf("%x", md5.Sum(content))
+			entries := []map[string]interface{}{{
+				"n": c.name, "r": c.renamed, "p": c.prev, "f": h, "t": "1700000000+0", "s": len(content), "b": 0, "e": len(content)}}
+			bodyData := content
+			switch c.route {
+			case "data2":
+				// a complete, harmless file first; the fields under test ride on the SECOND header entry
+				first := []byte("first-file")
+				entries = []map[string]interface{}{
+					{"n": "first.dat", "r": "", "p": "", "f": fmt.Sprintf("%x", md5.Sum(first)), "t": "1700000000+0", "s": len(first), "b": 0, "e": len(first)},
+					entries[0]}
+				bodyData = append(append([]byte{}, first...), content...)
+			case "data3":
+				// one file in two parts: only the LATER part's entry carries the predecessor / rename target under test
+				half := len(content) / 2
+				entries = []map[string]interface{}{
+					{"n": c.name, "r": "", "p": "", "f": h, "t": "1700000000+0", "s": len(content), "b": 0, "e": half},
+					{"n": c.name, "r": c.renamed, "p": c.prev, "f": h, "t": "1700000000+0", "s": len(content), "b": half, "e": len(content)}}
+			}
+			meta, _ := json.Marshal(entries)
 			body := append([]byte{}, meta...)
 			path := "/data"
-			if c.route == "data" {
-				body = append(body, content...)
+			if c.route != "recovery" {
+				body = append(body, bodyData...)
 			} else {
 				path = "/data-recovery"
 			}
@@ -187,7 +204,7 @@ func TestVerifHTTP(t *testing.T) {
 			resp.Body.Close()
 			status = resp.StatusCode
 		}
-		if status == 200 && c.route == "data" {
+		if status == 200 && strings.HasPrefix(c.route, "data") {
 			time.Sleep(40 * time.Millisecond) // validation / finalisation
 		}
 		after := vhSnapshot(root, dirs.LogMsg)
@@ -238,11 +255,19 @@ func TestVerifHTTP(t *testing.T) {
 			}
 		}
 	}
-	for _, rt := range []string{"data", "recovery", "validate", "sget", "sdel"} {
+	// a configured source name with a dot in it, and its near misses
+	for _, rt := range routes {
+		for _, src := range []string{"site.alpha", "site-alpha", "sitexalpha", "site0alpha", "site_alpha", "siteXalpha", "site.alph", "b1/c2", "b1-c2", "b1/c", "good", "goo", "goodd"} {
+			for _, k := range []string{"k1", "wrong"} {
+				run(vhCase{route: rt, srcsv: 2, keysv: 1, source: src, key: k, name: "file.txt"})
+			}
+		}
+	}
+	for _, rt := range []string{"data", "recovery", "validate", "sget", "sdel", "data2", "data3"} {
 		for _, n := range names {
 			for _, sep := range []string{"", "/", "\\"} {
 				run(vhCase{route: rt, srcsv: 1, keysv: 1, source: "good", key: "k1", name: n, sep: sep})
-				if rt == "data" || rt == "recovery" {
+				if rt == "data" || rt == "recovery" || rt == "data2" || rt == "data3" {
 					run(vhCase{route: rt, srcsv: 1, keysv: 1, source: "good", key: "k1", name: "ok.dat", prev: n, sep: sep})
 					run(vhCase{route: rt, srcsv: 1, keysv: 1, source: "good", key: "k1", name: "ok.dat", renamed: n, sep: sep})
 				}
@@ -269,7 +294,8 @@ func TestVerifHTTP(t *testing.T) {
 	}
 	for c := 0; c < N; c++ {
 		r := r0.Sub(uint64(c))
-		cs := vhCase{route: routes[r.Intn(len(routes))], srcsv: r.Intn(2), keysv: r.Intn(2),
+		rts := append([]string{"data2", "data3"}, routes...)
+		cs := vhCase{route: rts[r.Intn(len(rts))], srcsv: r.Intn(3), keysv: r.Intn(2),
 			source: sources[r.Intn(len(sources))], key: keys[r.Intn(len(keys))], name: mk(r)}
 		if r.Chance(1, 3) {
 			cs.prev = mk(r)
